@@ -23,7 +23,7 @@ ValKinds == {"bare", "unq", "dq", "sq"}
 \* value ids; the spellings live in the concretiser (and are asserted to avoid the enclosing quote)
 ValsOf(k) == CASE k = "bare" -> {"-"}
                [] k = "unq"  -> {"v1", "uni"}
-               [] k = "dq"   -> {"empty", "gt", "ltkv", "otherq", "uni", "looktag"}
+               [] k = "dq"   -> {"empty", "gt", "ltkv", "otherq", "uni", "looktag", "cmtchars"}
                [] k = "sq"   -> {"empty", "gt", "ltkv", "otherq", "uni", "looktag"}
 AttrSet == UNION {[name : Names, vk : {k}, val : ValsOf(k)] : k \in ValKinds}
 
